@@ -491,6 +491,12 @@ impl Outcome {
 
     /// `now_ns`: the virtual CLOCK_REALTIME at which the daemon will process the message.
     fn message(&self, as_of: (i64, i64), now_ns: i128) -> Message {
+        self.message_ref(as_of, now_ns, None)
+    }
+
+    /// `same_ref`: the reference time chronyd reported last (it keeps reporting it until its next
+    /// clock update); a stale report carries it when it is old enough to be stale.
+    fn message_ref(&self, as_of: (i64, i64), now_ns: i128, same_ref: Option<i128>) -> Message {
         let dy = |n: i64| float_bits(n, 25 - 10); // n / 1024
         let rep = |leap: u16, age: i128, a: i64, b: i64, c: i64| Report { ref_id: 0, leap, ref_time_ns: now_ns - age, correction_bits: dy(a), delay_bits: float_bits(c, 25 - 9), dispersion_bits: dy(b), interval_bits: bits_of_f64(16.0) };
         match self {
@@ -503,7 +509,13 @@ impl Outcome {
                 Message::ClockErrorBoundData((tracking_of(&r), *phc, ts(as_of.0, as_of.1)))
             }
             Outcome::Unsync => Message::ClockErrorBoundData((tracking_of(&rep(3, 0, 1024, 1024, 512)), 0, ts(as_of.0, as_of.1))),
-            Outcome::Stale => Message::ClockErrorBoundData((tracking_of(&rep(1, 1000 * NS, 7, 9, 11)), 0, ts(as_of.0, as_of.1))),
+            Outcome::Stale => {
+                let age = match same_ref {
+                    Some(r) if now_ns - r > 200 * NS => now_ns - r,
+                    _ => 1000 * NS,
+                };
+                Message::ClockErrorBoundData((tracking_of(&rep(1, age, 7, 9, 11)), 0, ts(as_of.0, as_of.1)))
+            }
             Outcome::BadLeap => Message::ClockErrorBoundData((tracking_of(&rep(9, 0, 7, 9, 11)), 0, ts(as_of.0, as_of.1))),
             Outcome::Future => Message::ClockErrorBoundData((tracking_of(&rep(0, -5 * NS, 7, 9, 11)), 0, ts(as_of.0, as_of.1))),
             Outcome::NoReplyGrace => Message::ChronyNotRespondingGracePeriod,
@@ -578,15 +590,32 @@ fn run_sequence(a: &Args, prop: &str, seq: &[Outcome], drift: u32, previous: boo
     let day_end = (T0_REAL_S as i128 / 86400 + 1) * 86400 * NS;
     let mut real_ns: i128 = *grng.pick(&[T0_REAL_S as i128 * NS, T0_REAL_S as i128 * NS, day_end - 10 * NS, day_end - 1_500_000_000, day_end - 500_000_000, day_end - 1, day_end, day_end + NS, day_end + 100 * NS]);
     *stats.entry(format!("wall-clock-start-{}", (real_ns / NS) % 86400)).or_insert(0) += 1;
+    let mut boot_offset: i128 = 0;
+    let mut last_ref: Option<i128> = None;
+    clock::fixed::set_boot_offset(0);
     for (i, o) in seq.iter().enumerate() {
         let gap: i128 = *grng.pick(&[0i128, 1_000_000, NS, NS, 4_900_000_000, 5 * NS, 5 * NS + 1, 7 * NS, 100 * NS, 2000 * NS]);
         mono_ns += gap;
         real_ns += gap;
+        // The machine is suspended now and then: the wall clock and CLOCK_BOOTTIME move on, the
+        // monotonic clock (in which as_of, the grace period and the clients' ages are counted) does not.
+        if grng.chance(1, 8) {
+            let s = *grng.pick(&[1_500_000_000i128, 30 * NS, 3600 * NS, 3600 * NS]);
+            real_ns += s;
+            boot_offset += s;
+            clock::fixed::set_boot_offset(boot_offset as i64);
+            *stats.entry("suspends".to_string()).or_insert(0) += 1;
+        }
         clock::fixed::set(((real_ns / NS) as i64, (real_ns % NS) as i64), ((mono_ns / NS) as i64, (mono_ns % NS) as i64));
         let as_of = ((mono_ns / NS) as i64, (mono_ns % NS) as i64);
         let gen_before = generation_of(&path).unwrap_or(0);
         let n_before = d.log.lock().unwrap().len();
-        d.send(o.message(as_of, real_ns));
+        d.send(o.message_ref(as_of, real_ns, last_ref));
+        match o {
+            Outcome::Unsync | Outcome::BadLeap => last_ref = Some(real_ns),
+            Outcome::Sync { ivl_log2, age_permille, .. } => last_ref = Some(real_ns - 8 * (1i128 << *ivl_log2) * NS * *age_permille as i128 / 1000),
+            _ => {}
+        }
         match d.wait_publication() {
             Wait::Published => {}
             Wait::NotPublished => {
@@ -688,6 +717,7 @@ fn run_sequence(a: &Args, prop: &str, seq: &[Outcome], drift: u32, previous: boo
     }
     d.stop();
     clock::fixed::set_real_tick(0);
+    clock::fixed::set_boot_offset(0);
     Ok(())
 }
 
